@@ -41,10 +41,11 @@ def _domain(case):
 
 
 def _call(gd, case, ell, swap=False, shift=0.0):
+    a = [case["lat1"], case["lon1"] + shift, case["lat2"], case["lon2"] + shift]
     if swap:
-        r = gd.vincinv(case["lat2"], case["lon2"] + shift, case["lat1"], case["lon1"] + shift, ell)
-    else:
-        r = gd.vincinv(case["lat1"], case["lon1"] + shift, case["lat2"], case["lon2"] + shift, ell)
+        a = a[2:] + a[:2]
+    # the default ellipsoid is GRS80: leave the argument out when that is what the case asks for
+    r = gd.vincinv(*a) if (case["ell"] == "grs80" and case.get("defaults")) else gd.vincinv(*a, ell)
     if not (isinstance(r, tuple) and len(r) == 3):
         raise Fail("vincinv did not return (distance, azimuth1to2, azimuth2to1)", observed=repr(r))
     return r
@@ -108,6 +109,24 @@ def _compare(what, ref, other, a, invf, ctx):
         if not move <= 1e-3:
             raise Fail("%s changes the %s azimuth by more than moves the far end of the line by 1 mm" % (what, name),
                        expected=ref, observed=dict(ctx, result=other, moves_far_end_m=move))
+
+
+def check_angle_classes(case):
+    """Arguments given in any supported angle class give the same result as their decimal-degree values."""
+    _domain(case)
+    gd = repo.mod("geodepy.geodesy")
+    ell = S.make_ellipsoid(case["ell"])
+    k = case["kind"]
+    objs = [S.angle_obj(k, case[n]) for n in ("lat1", "lon1", "lat2", "lon2")]
+    decs = [S.obj_dec(o) for o in objs]
+    if not all(-90.0 <= v <= 90.0 for v in (decs[0], decs[2])):
+        raise Discard()
+    if _sph_sep(decs[0], decs[1], decs[2], decs[3]) > 178.0:
+        raise Discard()
+    a = gd.vincinv(*objs, ell)
+    b = gd.vincinv(*decs, ellipsoid=ell)
+    if tuple(a) != tuple(b):
+        raise Fail("vincinv with angle objects differs from the call with their decimal-degree values", expected=b, observed=a)
 
 
 def check_swap(case):
@@ -195,7 +214,7 @@ def pairs(draw):
     else:   # the two points on opposite meridians: the geodesic passes over (or near) a pole
         lat2 = draw(lat_s)
         lon2 = _wrap_lon(lon1 + 180.0 + draw(st.sampled_from([0.0, 1e-9, -1e-9, 0.001, -0.001])))
-    return {"lat1": lat1, "lon1": lon1, "lat2": lat2, "lon2": lon2, "ell": draw(ell_s), "pair": kind}
+    return {"lat1": lat1, "lon1": lon1, "lat2": lat2, "lon2": lon2, "ell": draw(ell_s), "pair": kind, "defaults": draw(st.booleans())}
 
 
 @st.composite
@@ -219,11 +238,15 @@ def _classes(case):
     return out
 
 
+kind_pairs = pairs().flatmap(lambda c: st.sampled_from(["deca", "hpa", "gona", "dms", "ddm"]).map(lambda k: dict(c, kind=k)))
+
 SUBCHECKS = [
     SubCheck("arrival_and_reverse_azimuth", check_arrival, strategy=pairs(), nontrivial=_nt, classes=_classes,
              quick=3000, thorough=300000, shards_quick=4, shards_thorough=16,
              seq_groups=[["ell"], ["lat1", "lon1"], ["lat2", "lon2", "pair"]],
              rule="exact direct geodesic with (distance, azimuth1to2) arrives within 2 mm of point 2; azimuth2to1 = arrival azimuth + 180"),
+    SubCheck("angle_classes", check_angle_classes, strategy=kind_pairs, nontrivial=_nt, classes=_classes, quick=1500, thorough=100000,
+             shards_quick=2, shards_thorough=8, rule="vincinv with the five angle classes == vincinv with their .dec() values (exact)"),
     SubCheck("swap_symmetry", check_swap, strategy=pairs(), nontrivial=_nt, classes=_classes,
              quick=3000, thorough=300000, shards_quick=3, shards_thorough=12,
              rule="vincinv(p2, p1) = (same distance within 1 mm, azimuths exchanged within 1 mm at the far end)"),
